@@ -342,7 +342,28 @@ static void handle(size_t nw, char **w) {
 	seed = strtoull(w[2], NULL, 10);
 	prep(seed >> 8);                                           /* 256 stream seeds share one key set */
 	ob_init(&o);
-	if (!strcmp(w[0], "count") && nw == 3) {
+	if (!strcmp(w[0], "vals") && nw == 3) {
+		/* the 32-byte values the operation drew (replayed from the stream): the Coq model of the rejection sampling is fed the
+		 * same bytes and must consume exactly as many */
+		long k, lim; size_t lens[64]; uint8_t v[256];
+		rc = run_once(op, seed, -1, &o, &draws, &bytes);
+		lim = draws < 64 ? draws : 64;
+		for (k = 0; k < lim; k++) lens[k] = ent.log[k].len;
+		printf("rc=%d draws=%ld", rc == 1 ? 1 : -1, draws);
+		ent_seed(seed, -1);
+		printf(" vals=");
+		for (k = 0; k < lim; k++) { if (verif_ent_getentropy(v, lens[k]) != 0) break; if (k) printf(","); puthex(v, lens[k]); }
+	} else if (!strcmp(w[0], "lens") && nw == 4) {
+		/* draw script of the operation (lengths of the draws served, in order) and its outcome with draw <failat> failing:
+		 * line-compared with the script model of Sys/Gateway.v */
+		long k, lim;
+		rc = run_once(op, seed, atol(w[3]), &o, &draws, &bytes);
+		printf("rc=%d draws=%ld lens=", rc == 1 ? 1 : -1, draws);
+		lim = draws < ENT_MAXLOG ? draws : ENT_MAXLOG;
+		if (atol(w[3]) >= 0 && atol(w[3]) < lim) lim = atol(w[3]);         /* the failing draw is not served */
+		for (k = 0; k < lim; k++) printf("%s%zu", k ? "," : "", ent.log[k].len);
+		if (!lim) printf("-");
+	} else if (!strcmp(w[0], "count") && nw == 3) {
 		rc = run_once(op, seed, -1, &o, &draws, &bytes);
 		printf("DRAWS rc=%d draws=%ld bytes=%zu out=%zu", rc, draws, bytes, o.n);
 	} else if (!strcmp(w[0], "fail") && nw == 4) {
